@@ -319,5 +319,9 @@ var c13ProcInputs = []struct{ name, src string }{
 	{"skipCopySameType with a named type handed through twice", "// goverter:converter\n// goverter:skipCopySameType\ntype C interface {\n\tConv(source S) T\n}\n\ntype ID string\ntype S struct{ A ID; B ID; C ID }\ntype T struct{ A ID; B ID; C ID }\n"},
 	{"method-level skipCopySameType, named struct and named slice repeated", "// goverter:converter\ntype C interface {\n\t// goverter:skipCopySameType\n\tConv(source S) T\n\tOther(source S) *T\n}\n\ntype N struct{ V []int }\ntype L []N\ntype S struct{ A N; B N; K L; M L }\ntype T struct{ A N; B N; K L; M L }\n"},
 	{"repeated named types without skipCopySameType (sub-methods, dirty loop)", "// goverter:converter\ntype C interface {\n\tConv(source S) T\n}\n\ntype N struct{ V []int; Next *N }\ntype S struct{ A N; B N; C *N; D []N }\ntype T struct{ A N; B N; C *N; D []N }\n"},
+	{"autoMap through a pointer to a basic type", "// goverter:converter\ntype C interface {\n\t// goverter:autoMap P\n\tA(source S) T\n}\n\ntype S struct {\n\tP *string\n\tX int\n}\ntype T struct{ X int }\n"},
+	{"autoMap through a pointer to a pointer to a struct", "// goverter:converter\ntype C interface {\n\t// goverter:autoMap PP\n\tA(source S) T\n}\n\ntype N struct{ X int }\ntype S struct{ PP **N }\ntype T struct{ X int }\n"},
+	{"autoMap through a pointer to a slice / map, nested", "// goverter:converter\ntype C interface {\n\t// goverter:autoMap PL\n\tA(source S) T\n\t// goverter:autoMap In.P\n\tB(source S2) T\n\t// goverter:autoMap PM\n\tD(source S3) T\n}\n\ntype N struct{ X int }\ntype In struct{ P *string }\ntype S struct {\n\tPL *[]N\n\tX  int\n}\ntype S2 struct {\n\tIn In\n\tX  int\n}\ntype S3 struct {\n\tPM *map[string]int\n\tX  int\n}\ntype T struct{ X int }\n"},
+	{"autoMap through a pointer to a struct and a plain string", "// goverter:converter\ntype C interface {\n\t// goverter:autoMap P\n\tA(source S) T\n\t// goverter:autoMap Name\n\tB(source S2) T\n}\n\ntype N struct{ X int }\ntype S struct{ P *N }\ntype S2 struct {\n\tName string\n\tX    int\n}\ntype T struct{ X int }\n"},
 	{"empty output:format", "// goverter:converter\n// goverter:output:format\ntype C interface {\n\tConv(source S) T\n}\n\ntype S struct{ A int }\ntype T struct{ A int }\n"},
 }
